@@ -11,8 +11,8 @@ From SCC Require Import Lang.FunSyn Model.Check Sem.FunTyping
   Proof.CheckWitness Proof.CheckAnn Proof.TypingReject Proof.CheckBuild Proof.CheckMono
   Proof.CheckMonoSound Proof.CheckMonoProg Proof.CheckMonoComplete Proof.CheckMonoProgC Proof.CheckMonoFaithful.
 
-(* soundness: false in general (check_sound_refuted_lemma: declaration types are checked by head
-   name only); holds for programs without type parameters and type arguments *)
+(* soundness for programs without type parameters and type arguments (round 1; for all programs with
+   identifier-like names: Proof/CheckFixed.v check_sound) *)
 Lemma check_sound_partial : forall p q, mono_prog p = true -> check p = COk q -> has_type p.
 Proof. intros p q Hm H. exact (check_gen_sound_mono true p q Hm H). Qed.
 
